@@ -130,6 +130,9 @@ func (t *StreamUnderlay) Close() error {
 	// Unblock any pending I/O before closing sessions.
 	t.conn.SetDeadline(time.Now())
 	t.baseUnderlay.Close()
+	// The event loop may have started another read with a fresh timeout
+	// while the sessions were closing. Unblock it again now that done is closed.
+	t.conn.SetDeadline(time.Now())
 	return nil
 }
 
@@ -364,6 +367,12 @@ func (t *StreamUnderlay) readOneSegment() (*segment, error) {
 
 	common.SetReadTimeout(t.conn, readOneSegmentTimeout)
 	defer common.SetReadTimeout(t.conn, 0)
+	select {
+	case <-t.done:
+		// Close() ran after the caller checked. Don't wait for the new timeout.
+		return nil, stderror.WrapErrorWithType(io.ErrClosedPipe, stderror.NETWORK_ERROR)
+	default:
+	}
 
 	// Read encrypted metadata.
 	readLen := MetadataLength + cipher.DefaultOverhead
